@@ -155,6 +155,22 @@ def view (G : LGraph) : Level → LGraph
 def runnerCytoscape (G : LGraph) (l : Level) : List Elem :=
   toCytoscape (view G l) (l == .column)
 
+/-! ### the items whose printed names become cytoscape node ids -/
+
+/-- the view's nodes and, at column level, the distinct owners (`parents_dict` keys: an owner object or `None`) -/
+inductive Item
+  | node (n : Node)
+  | parent (k : Option DS)
+  deriving DecidableEq, Repr
+
+def items (g : LGraph) (compound : Bool) : List Item :=
+  g.nodes.map Item.node ++ (if compound then (parentsDict g).map (fun kv => Item.parent kv.1) else [])
+
+/-- the name an item is exported under -/
+def printItem (g : LGraph) : Item → String
+  | .node n => printedNode g n
+  | .parent k => parentNameOf g k
+
 /-! ### text summary (runner.py:74‑90, `verbose=False`) -/
 
 def insertSorted (x : String) : List String → List String
